@@ -187,7 +187,7 @@ class Const(Dom):
 
 class Harness:
     def __init__(self, name, fn, inputs, bounds="", outside=(), stubs=(), loop_bound=300, witness_cap=60,
-                 timeout_ms=60000, models=None):
+                 timeout_ms=60000, models=None, patches=None):
         self.name = name
         self.fn = fn
         self.inputs = inputs          # dict name -> Dom  (or callable(tier) -> dict)
@@ -198,6 +198,7 @@ class Harness:
         self.witness_cap = witness_cap
         self.timeout_ms = timeout_ms
         self.models = dict(models or {})
+        self.patches = list(patches or [])   # (owner, attribute, replacement): environment stubs, active symbolically and natively
 
     def input_domains(self, tier):
         d = self.inputs(tier) if callable(self.inputs) else self.inputs
